@@ -24,6 +24,13 @@ def normalize(v):
     """
     Normalize the input vector
     """
+    # Scale by the largest component first, so that the squares taken by the norm
+    # can neither overflow nor underflow for very long or very short vectors
+    largest = np.abs(v.x.values)
+    for c in (v.y, v.z):
+        if c is not None:
+            largest = np.maximum(largest, np.abs(c.values))
+    v = v / np.where(largest == 0, 1, largest)
     norm = v.norm
     nvals = norm.values
     if norm.shape:
@@ -288,12 +295,11 @@ class Vector(Base):
 
 class VectorBasis:
     def __init__(self, n, u=None, v=None):
-        self.n = n
-        self.u = perpendicular_vector(self.n) if u is None else u
-        self.v = self.n.cross(self.u) if v is None else v
-        self.n = normalize(self.n)
-        self.u = normalize(self.u)
-        self.v = normalize(self.v)
+        # Normalize each vector before it is used to build the next one: products of
+        # unnormalized vectors lose the direction of very long or very short normals
+        self.n = normalize(n)
+        self.u = normalize(perpendicular_vector(self.n) if u is None else u)
+        self.v = normalize(self.n.cross(self.u) if v is None else v)
         self.n.name = n.name
         if u is not None:
             self.u.name = u.name
